@@ -27,7 +27,51 @@ def case_line(ex_index, part, ident):
     return ex_index.get((part, ident), "")
 
 
+def tie_tables(ck, ex):
+    """generated Tie/Observed_X_misc.v: forallb agrees table = true by vm_compute, plus coverage of the whole domain"""
+    def codes(hx):
+        return "[" + "; ".join(str(int(hx[i:i + 2], 16)) for i in range(0, len(hx), 2)) + "]" if hx != "-" else "[]"
+    rows = {"type": [], "qos": [], "cc": [], "id": []}
+    for l in ex:
+        f = l.split()
+        if len(f) >= 5 and f[0] == "pk" and f[1] in rows:
+            b = "true" if f[4] == "1" else "false"
+            if f[1] in ("type", "cc"):
+                rows[f[1]].append("(%s, %s, %s)" % (f[2], b, codes(f[5])))
+            else:
+                rows[f[1]].append("(%s, %s)" % (f[2], b))
+    v = ("From Coq Require Import List NArith Bool.\nFrom Coq.Strings Require Import Byte.\n"
+         "From GM Require Import Codec.Packet Misc.PktMisc.\nImport ListNotations.\nOpen Scope N_scope.\nOpen Scope bool_scope.\n"
+         "Definition codes (s : list byte) : list N := map Byte.to_N s.\n"
+         "Fixpoint leqb (a b : list N) : bool := match a, b with [], [] => true | x :: a', y :: b' => (x =? y) && leqb a' b' | _, _ => false end.\n"
+         "Definition agrees_type (r : N * bool * list N) : bool := let '(n, v, s) := r in Bool.eqb (type_valid n) v && leqb (codes (type_string n)) s.\n"
+         "Definition agrees_cc (r : N * bool * list N) : bool := let '(n, v, s) := r in Bool.eqb (connack_valid n) v && leqb (codes (connack_string n)) s.\n"
+         "Definition agrees_qos (r : N * bool) : bool := let '(n, v) := r in Bool.eqb (qos_successful n) v.\n"
+         "Definition agrees_id (r : N * bool) : bool := let '(n, v) := r in Bool.eqb (id_valid n) v.\n"
+         "Fixpoint from {A} (key : A -> N) (s : N) (l : list A) : bool := match l with [] => true | x :: l' => (key x =? s) && from key (s + 1) l' end.\n")
+    v += "Definition obs_type : list (N * bool * list N) := [%s].\n" % "; ".join(rows["type"])
+    v += "Definition obs_cc : list (N * bool * list N) := [%s].\n" % "; ".join(rows["cc"])
+    v += "Definition obs_qos : list (N * bool) := [%s].\n" % "; ".join(rows["qos"])
+    chunks = [rows["id"][i:i + 1024] for i in range(0, len(rows["id"]), 1024)]
+    for i, ch in enumerate(chunks):
+        v += "Definition obs_id%d : list (N * bool) := [%s].\n" % (i, "; ".join(ch))
+    v += "Definition obs_id := [%s].\n" % "; ".join("obs_id%d" % i for i in range(len(chunks)))
+    v += ("Lemma tie_type : forallb agrees_type obs_type = true.\nProof. vm_compute; reflexivity. Qed.\n"
+          "Lemma tie_cc : forallb agrees_cc obs_cc = true.\nProof. vm_compute; reflexivity. Qed.\n"
+          "Lemma tie_qos : forallb agrees_qos obs_qos = true.\nProof. vm_compute; reflexivity. Qed.\n"
+          "Lemma tie_id : forallb (forallb agrees_id) obs_id = true.\nProof. vm_compute; reflexivity. Qed.\n"
+          "Lemma covers_bytes : from (fun r => fst (fst r)) 0 obs_type && (N.of_nat (length obs_type) =? 256) && "
+          "from (fun r => fst (fst r)) 0 obs_cc && (N.of_nat (length obs_cc) =? 256) && "
+          "from fst 0 obs_qos && (N.of_nat (length obs_qos) =? 256) = true.\nProof. vm_compute; reflexivity. Qed.\n")
+    v += "Lemma covers_ids : %s && (N.of_nat (length obs_id) =? 64) = true.\nProof. vm_compute; reflexivity. Qed.\n" % " && ".join(
+        "from fst %d obs_id%d && (N.of_nat (length obs_id%d) =? 1024)" % (i * 1024, i, i) for i in range(len(chunks)))
+    ok, _ = ck.tie_v("Observed_X_misc", v)
+    ck.extra["in_kernel_table_rows"] = sum(len(r) for r in rows.values())
+    return ok
+
+
 def run(ck):
+    pkt_ex = []
     ck.coq()
     if not ck.build_harness("misc"):
         return
@@ -79,7 +123,14 @@ def run(ck):
                 rl += [by_id.get(f[2], ""), l]
             ck.fail_unwitnessed("correspondence %s (%d disagreeing cases)" % (corr, len(tie_only)), rl)
         total += sum(1 for l in ex if l.startswith("direct "))
+        if cmd == "pkt":
+            pkt_ex = ex
     if ck.tier == "thorough" and not ck.replay:
+        # T-exh in the kernel: the complete observed tables of Type, QOS, ConnackCode (256 rows each) and ID (65536 rows)
+        ok = tie_tables(ck, pkt_ex)
+        ck.extra["exhaustive"] = bool(ok)
+        if not ok and not ck.violations:
+            ck.fail_unwitnessed("Tie/Observed_X_misc.v (in-kernel tables of packet.Type / QOS / ConnackCode / ID)")
         ck.coqchk(["GM.Props.X_misc"])
     if observations:
         ck.extra["observations"] = observations[:20]
